@@ -67,7 +67,7 @@ def check(run):
                 fc.hxs(r["input"]), r["decoded"])))
         else:
             cases.append((r["id"], "Z.eqb (dec_class None %s) %d" % (fc.hxs(r["input"]), 0 if r["outcome"] == "ok" else 1)))
-    if cases and pr["ok"]:
+    if cases and fc.can_eval(pr):
         mism, cerr = fc.eval_cases("Cases_C04", fc.FRAME_PRELUDE, cases)
         if cerr:
             broken.append(cerr)
